@@ -251,9 +251,14 @@ Definition bot_cond (c : bcfg) (e : env) (f : frame) (t : string) : option cres 
     | Some (Some _) => Some (CBool true)
     end
   else if String.eqb t "registry == nil" then
-    (* registryID.ReadFrom(r) on the packet data, then c.Registries.Registry(id) *)
+    (* registryID.ReadFrom(r) on the packet data, c.Registries.Registry(id), registry.ReadFrom(r): the
+       failure of the last call (the `err != nil` that follows it) is attributed here *)
     match f_fields f with
-    | FString rid :: _ => if bc_registry_known c rid then Some CUnmodelled else Some (CFail stRegistry)
+    | FString rid :: rest =>
+        match bc_registry c rid (match rest with FRaw d :: _ => d | _ => [] end) with
+        | Some true => Some (CBool false)
+        | _ => Some (CFail stRegistry)
+        end
     | _ => Some (CFail stRegistry)
     end
   else if String.eqb t "c.Auth.UUID != ''" then Some CSkip      (* the claimed uuid is bc_claim either way *)
@@ -457,14 +462,16 @@ Definition verdict (sc : scfg) (s : srv) : option (list N) :=
   | Some chk => chk (s_name s) (s_uuid s) (s_proto s)
   end.
 
-Definition srv_arg (sc : scfg) (s : srv) (a : string) : option (list field) :=
+Definition srv_arg (sc : scfg) (s : srv) (cur : list N * list N) (a : string) : option (list field) :=
   if String.eqb a "pk.VarInt(d.Threshold)" then Some [FVarInt (sc_threshold sc)]
   else if String.eqb a "pk.UUID(id)" then Some [FUUID (s_uuid s)]
   else if String.eqb a "pk.String(name)" then Some [FString (s_name s)]
   else if String.eqb a "pk.Array(properties)" then Some [FVarInt 0]      (* offline mode: no properties *)
   else if String.eqb a "chat.JsonMessage(loginErr.reason)" then
     match verdict sc s with Some r => Some [FJson r] | None => None end
-  else if String.eqb a "pk.NBT(c.Registries)" then Some [FNbt (sc_registry_blob sc)]
+  (* inside AcceptConfig's loop over the tagged fields: the tag and the registry of the current field *)
+  else if String.eqb a "pk.Identifier(id)" then Some [FString (fst cur)]
+  else if String.eqb a "registries.Field(i).Addr().Interface().(pk.FieldEncoder)" then Some [FRaw (snd cur)]
   else None.
 Definition srv_cond (sc : scfg) (s : srv) (t : string) : option cres :=
   if String.eqb t "err != nil" then Some CSkip
@@ -476,11 +483,12 @@ Definition srv_cond (sc : scfg) (s : srv) (t : string) : option cres :=
     Some (CBool match verdict sc s with Some _ => true | None => false end)
   else if String.eqb t "errors.As(err,&loginErr)" then Some (CBool true)
   else if String.eqb t "s.Logger != nil" then Some CSkip
+  else if String.eqb t "!ok" then Some (CBool false)     (* sc_registries lists the tagged fields only *)
   else None.
-Definition srv_sem (sc : scfg) (s : srv) : sem :=
-  {| v_arg := srv_arg sc s; v_cond := srv_cond sc s;
+Definition srv_sem_reg (sc : scfg) (s : srv) (cur : list N * list N) : sem :=
+  {| v_arg := srv_arg sc s cur; v_cond := srv_cond sc s;
      v_thr := fun a => if String.eqb a "d.Threshold" then Some (sc_threshold sc) else None |}.
-
+Definition srv_sem (sc : scfg) (s : srv) : sem := srv_sem_reg sc s ([], []).
 Fixpoint after_scan (ps : list gstmt) : list gstmt :=
   match ps with
   | [] => []
@@ -537,14 +545,53 @@ Proof.
           | eexists; split; [reflexivity|]; vm_compute; rewrite ?Ev; vm_compute; split; reflexivity ].
 Qed.
 
-(* server.Configurations.AcceptConfig: registry data, finish, return - the model's CfgStock goes to
-   AcceptPlayer without reading the client's acknowledgement *)
-Theorem srv_config_is_skel : forall (sc : scfg) (s : srv), sc_cfg sc = CfgStock ->
-  exists w, run_seg fuel0 (srv_sem sc s) (s_thr s) expected_server_accept_config = (w, s_thr s, StReturn "err") /\
-            drain (srv_act offline_uuid sc) 4 (s_set s (cfg_phase sc)) = (w, s_set s SJoined).
+(* server.Configurations.AcceptConfig after the repair: `for` over the tagged fields of Registries with one
+   RegistryData write per field, the Finish write, then the loop that reads until the acknowledgement *)
+Definition config_parts (ps : list gstmt) : option (list gstmt * list gstmt) :=
+  match ps with
+  | GOther _ :: GFor _ body :: rest => Some (body, rest)
+  | _ => None
+  end.
+Definition wait_cond (rest : list gstmt) (sm : sem) (thr : Z) : option string :=
+  match snd (run_seg fuel0 sm thr rest) with
+  | StLoop [GOther _; GRead; GIf _ _ _; GIf c [GReturn "nil"] []] => Some c
+  | _ => None
+  end.
+
+Lemma drain_regs sc : forall rs k (s : srv) n w s',
+  drain (srv_act offline_uuid sc) n (s_set s k) = (w, s') ->
+  drain (srv_act offline_uuid sc) (List.length rs + n) (s_set s (reg_chain rs k))
+  = (map (fun r => {| f_thr := s_thr s; f_id := cbConfigRegistryData; f_fields := [FString (fst r); FRaw (snd r)] |}) rs ++ w, s').
 Proof.
-  intros [thr chk cfg blob status] [ph0 t0 p0 n0 u0] Hc. cbn [sc_cfg] in Hc. subst cfg.
-  eexists. split; vm_compute; reflexivity.
+  induction rs as [|[rid content] rs IH]; intros k [ph t p nm uu] n w s' H; [exact H|].
+  specialize (IH k {| s_ph := ph; s_thr := t; s_proto := p; s_name := nm; s_uuid := uu |} n w s' H).
+  unfold s_set in *. cbn [s_thr s_proto s_name s_uuid] in *.
+  cbn [List.length plus drain reg_chain srv_act s_ph map app fst snd s_thr s_set s_proto s_name s_uuid].
+  unfold s_set. cbn [s_thr s_proto s_name s_uuid].
+  rewrite IH. reflexivity.
+Qed.
+
+Theorem srv_config_is_skel : forall (sc : scfg) (s : srv), sc_cfg sc = CfgStock ->
+  exists body rest,
+    config_parts expected_server_accept_config = Some (body, rest) /\
+    (forall r, run_seg fuel0 (srv_sem_reg sc s r) (s_thr s) body
+               = ([{| f_thr := s_thr s; f_id := cbConfigRegistryData; f_fields := [FString (fst r); FRaw (snd r)] |}], s_thr s, StEnd)) /\
+    (exists w lb, run_seg fuel0 (srv_sem sc s) (s_thr s) rest = (w, s_thr s, StLoop lb) /\
+       drain (srv_act offline_uuid sc) (List.length (sc_registries sc) + 3) (s_set s (cfg_phase sc))
+       = (map (fun r => {| f_thr := s_thr s; f_id := cbConfigRegistryData; f_fields := [FString (fst r); FRaw (snd r)] |})
+              (sc_registries sc) ++ w, s_set s SConfWait)) /\
+    wait_cond rest (srv_sem sc s) (s_thr s)
+      = Some "packetid.ServerboundPacketID(p.ID) == packetid.ServerboundConfigFinishConfiguration" /\
+    sbConfigFinish = pid "packetid.ServerboundConfigFinishConfiguration".
+Proof.
+  intros [thr chk cfg regs status] [ph0 t0 p0 n0 u0] Hc. cbn [sc_cfg] in Hc. subst cfg.
+  do 2 eexists. split; [reflexivity|]. split; [intros [rid content]; vm_compute; reflexivity|].
+  split; [|split; vm_compute; reflexivity].
+  do 2 eexists. split; [vm_compute; reflexivity|].
+  unfold cfg_phase. cbn [sc_cfg sc_registries s_thr].
+  apply (drain_regs _ regs (SSend cbConfigFinish [] SConfWait)
+           {| s_ph := ph0; s_thr := t0; s_proto := p0; s_name := n0; s_uuid := u0 |} 3).
+  vm_compute. reflexivity.
 Qed.
 End Srv.
 
@@ -609,6 +656,15 @@ Theorem srv_login_is_source : forall (offline_uuid : list N -> list N)
   end.
 Proof. rewrite server_accept_login_skel_ok, server_accept_conn_skel_ok. exact srv_login_is_skel. Qed.
 Theorem srv_config_is_source : forall (offline_uuid : list N -> list N) (sc : scfg) (s : srv), sc_cfg sc = CfgStock ->
-  exists w, run_seg fuel0 (srv_sem sc s) (s_thr s) Gate.server_accept_config = (w, s_thr s, StReturn "err") /\
-            drain (srv_act offline_uuid sc) 4 (s_set s (cfg_phase sc)) = (w, s_set s SJoined).
+  exists body rest,
+    config_parts Gate.server_accept_config = Some (body, rest) /\
+    (forall r, run_seg fuel0 (srv_sem_reg sc s r) (s_thr s) body
+               = ([{| f_thr := s_thr s; f_id := cbConfigRegistryData; f_fields := [FString (fst r); FRaw (snd r)] |}], s_thr s, StEnd)) /\
+    (exists w lb, run_seg fuel0 (srv_sem sc s) (s_thr s) rest = (w, s_thr s, StLoop lb) /\
+       drain (srv_act offline_uuid sc) (List.length (sc_registries sc) + 3) (s_set s (cfg_phase sc))
+       = (map (fun r => {| f_thr := s_thr s; f_id := cbConfigRegistryData; f_fields := [FString (fst r); FRaw (snd r)] |})
+              (sc_registries sc) ++ w, s_set s SConfWait)) /\
+    wait_cond rest (srv_sem sc s) (s_thr s)
+      = Some "packetid.ServerboundPacketID(p.ID) == packetid.ServerboundConfigFinishConfiguration" /\
+    sbConfigFinish = pid "packetid.ServerboundConfigFinishConfiguration".
 Proof. rewrite server_accept_config_skel_ok. exact srv_config_is_skel. Qed.
